@@ -111,6 +111,66 @@ def install(ctx):
         r = yield from ip.call_closure(f, [])
         return r
 
+    @M.reg('Option::or_else')
+    def option_or_else(ip, pc, args, dt):
+        o, f = args
+        if variant_of(ip, o) == 1:
+            return o
+        r = yield from ip.call_closure(f, [])
+        return r
+
+    @M.reg('Option::or')
+    def option_or(ip, pc, args, dt):
+        o, d = args
+        if variant_of(ip, o) == 1:
+            return o
+        return d
+
+    @M.reg('Option::and_then')
+    def option_and_then(ip, pc, args, dt):
+        o, f = args
+        if variant_of(ip, o) == 0:
+            return NONE
+        r = yield from ip.call_closure(f, [o.payload[1][0]])
+        return r
+
+    @M.reg('Option::filter')
+    def option_filter(ip, pc, args, dt):
+        o, f = args
+        if variant_of(ip, o) == 0:
+            return NONE
+        keep = yield from ip.call_closure(f, [Ref(Loc(Cell(o.payload[1][0], 'filter-arg')))])
+        if ip.path.branch(keep.t, 'Option::filter'):
+            return o
+        return NONE
+
+    @M.reg('Option::is_some_and', 'Option::is_none_or')
+    def option_is_some_and(ip, pc, args, dt):
+        o, f = args
+        some_ = variant_of(ip, o) == 1
+        if not some_:
+            return bool_s(z3.BoolVal(pc['method'] == 'is_none_or'))
+        r = yield from ip.call_closure(f, [o.payload[1][0]])
+        return r
+
+    @M.reg('Option::replace', 'Option::insert')
+    def option_replace(ip, pc, args, dt):
+        r = args[0]
+        old = read_loc(r.loc)
+        write_loc(r.loc, some(args[1]))
+        if pc['method'] == 'insert':
+            return Ref(r.loc.extend(('vf', (1, 0))), True)
+        return old
+
+    @M.reg('Option::get_or_insert_with')
+    def option_get_or_insert_with(ip, pc, args, dt):
+        r, f = args
+        o = read_loc(r.loc)
+        if variant_of(ip, o) == 0:
+            v = yield from ip.call_closure(f, [])
+            write_loc(r.loc, some(v))
+        return Ref(r.loc.extend(('vf', (1, 0))), True)
+
     @M.reg('Option::unwrap_or_default')
     def option_unwrap_or_default(ip, pc, args, dt):
         o, = args
